@@ -12,6 +12,8 @@ import (
 	"verif/lib/nrun"
 )
 
+func plans() []nrun.Plan { return append(iscen.Plans(), iscen.GenPlans()...) }
+
 func TestC02(t *testing.T) {
 	if explore.IsWorker() || os.Getenv("VERIF_REPLAY") != "" {
 		// The first execution of a fresh process occasionally orders two
@@ -23,13 +25,13 @@ func TestC02(t *testing.T) {
 		if !explore.IsWorker() {
 			runtime.GOMAXPROCS(1) // as in the workers: with several Ps a replay diverges about one time in three
 		}
-		for _, p := range iscen.Plans() {
+		for _, p := range plans() {
 			netctl.Run(t, p.Scenario, explore.Job{Scenario: p.Scenario.Name})
 		}
 	}
 	nrun.Main(t, &nrun.Check{
-		ID: "C02", TestName: "TestC02", Plans: iscen.Plans(), KeyOf: iscen.KeyOf("C02"),
-		QuickTime: 75 * time.Second, ThorTime: 18 * time.Minute,
+		ID: "C02", TestName: "TestC02", Plans: plans(), KeyOf: iscen.KeyOf("C02"),
+		QuickTime: 110 * time.Second, ThorTime: 20 * time.Minute,
 		Rule:   "engine N: every order of Produce calls, a leader move, request/response frame deliveries, timer ticks and injected faults (produce: connection kill before/after handling, NOT_LEADER, NOT_ENOUGH_REPLICAS, REQUEST_TIMED_OUT before and after append, NOT_ENOUGH_REPLICAS_AFTER_APPEND, stalled request; metadata/InitProducerID: kill before/after) within k deviations of the default order, for four idempotent-producer scenarios (one record per batch, pipelined requests; two partitions on two brokers; small RecordRetries + RecordDeliveryTimeout; single partition; AllowIdempotentProduceCancellation with a cancelled record context); distinct = distinct terminal outcomes (per-record promise class and number of Produce requests that carried the record, plus final log contents) per scenario",
 		Assume: []string{"kfake is the broker, including its duplicate window (C29/C32 check that)", "synctests build of xsync (C31 covers the channel mutexes)", "goroutine micro-interleavings inside one event are the Go runtime's"},
 	})
